@@ -180,7 +180,10 @@ package sftp
 
 //@ func (*conn).sendPacket
 //@   property C03
+//@   requires c != nil && c.WriteCloser != nil && m != nil
+//@   assert before call sendPacket#1: locked(&c.Mutex)
 //@   modifies bytes
+// (header and payload of one packet are written while the connection's write lock is held)
 
 // ---------------------------------------------------------------------------
 // trusted library contracts
@@ -599,13 +602,24 @@ package sftp
 //@   requires svr.openFiles != nil && f != nil
 //@   requires filesOK(svr)
 //@   ensures filesOK(svr)
+//@   ensures svr.handleCount == old(svr.handleCount) + 1
+//@   assert before call strconv.Itoa#1: arg0 == old(svr.handleCount) + 1
+//@   assert before mapupdate#1: arg0 == svr.openFiles && arg1 == handle && arg2 == f && locked(&svr.openFilesLock)
+//@   ensures haskey(svr.openFiles, result) && svr.openFiles[result] == f
 //@   modifies svr.handleCount, mapof svr.openFiles
+// (handles are the decimal rendering of a strictly increasing counter: with strconv.Itoa injective they are pairwise
+//  distinct for the life of the server object; the table is only written under its lock)
 
 //@ func (*Server).closeHandle
 //@   property C07, C11
 //@   requires filesOK(svr)
 //@   ensures filesOK(svr)
+//@   ensures !haskey(svr.openFiles, handle)
+//@   ensures !old(haskey(svr.openFiles, handle)) ==> result == EBADF
+//@   assert before call (file).Close#1: arg0 == old(svr.openFiles[handle]) && !haskey(svr.openFiles, handle)
 //@   modifies mapof svr.openFiles
+// (a handle dies on close: the entry is removed before the file is closed, exactly the registered file is closed,
+//  and a handle that is not in the table yields EBADF without touching any file)
 //@ pred specOK(p *sshFxpExtendedPacket) = p.SpecificPacket == nil || ((typeis(p.SpecificPacket, *sshFxpExtendedPacketStatVFS) || typeis(p.SpecificPacket, *sshFxpExtendedPacketPosixRename) || typeis(p.SpecificPacket, *sshFxpExtendedPacketHardlink)) && p.SpecificPacket.id() == p.ID)
 //@ pred extOK(p requestPacket) = typeis(p, *sshFxpExtendedPacket) ==> specOK(p.(*sshFxpExtendedPacket))
 //@ pred reqType(p requestPacket) = typeis(p, *sshFxInitPacket) || typeis(p, *sshFxpLstatPacket) || typeis(p, *sshFxpOpenPacket) || typeis(p, *sshFxpClosePacket) || typeis(p, *sshFxpReadPacket) || typeis(p, *sshFxpWritePacket) || typeis(p, *sshFxpFstatPacket) || typeis(p, *sshFxpSetstatPacket) || typeis(p, *sshFxpFsetstatPacket) || typeis(p, *sshFxpOpendirPacket) || typeis(p, *sshFxpReaddirPacket) || typeis(p, *sshFxpRemovePacket) || typeis(p, *sshFxpMkdirPacket) || typeis(p, *sshFxpRmdirPacket) || typeis(p, *sshFxpRealpathPacket) || typeis(p, *sshFxpStatPacket) || typeis(p, *sshFxpRenamePacket) || typeis(p, *sshFxpReadlinkPacket) || typeis(p, *sshFxpSymlinkPacket) || typeis(p, *sshFxpExtendedPacket)
@@ -1069,12 +1083,19 @@ package sftp
 //@   requires reqsOK(rs) && r != nil
 //@   ensures reqsOK(rs)
 //@   ensures result == r.handle
+//@   ensures rs.handleCount == old(rs.handleCount) + 1
+//@   assert before call strconv.Itoa#1: arg0 == old(rs.handleCount) + 1
+//@   assert before mapupdate#1: arg0 == rs.openRequests && arg2 == r && locked(&rs.mu)
+//@   ensures haskey(rs.openRequests, result) && rs.openRequests[result] == r
 //@   modifies rs.handleCount, mapof rs.openRequests, r.handle
 
 //@ func (*RequestServer).closeRequest
 //@   property C07, C11
 //@   requires reqsOK(rs)
 //@   ensures reqsOK(rs)
+//@   ensures !haskey(rs.openRequests, handle)
+//@   ensures !old(haskey(rs.openRequests, handle)) ==> result == EBADF
+//@   assert before call (*Request).close#1: arg0 == old(rs.openRequests[handle]) && !haskey(rs.openRequests, handle)
 
 //@ func (*Request).close
 //@   property C07, C11
@@ -1253,6 +1274,7 @@ package sftp
 // ---------------------------------------------------------------------------
 // client connection internals (conn.go): C20 channel invariant at every send, C03 routing, C04 safety core
 
+//@ pred m_err_nonnil(m result) = m.err != nil
 //@ pred ccOK(c *clientConn) = c != nil && c.inflight != nil && c.Reader != nil && c.WriteCloser != nil && (c.alloc == nil || c.alloc.used != nil)
 
 //@ func (*clientConn).recv
@@ -1266,6 +1288,9 @@ package sftp
 //@   requires c != nil && c.inflight != nil && ch != nil
 //@   ensures c.inflight != nil
 //@   ensures result ==> haskey(c.inflight, sid) && c.inflight[sid] == ch
+//@   ensures !result ==> (haskey(c.inflight, sid) <==> old(haskey(c.inflight, sid))) && c.inflight[sid] == old(c.inflight[sid])
+//@   assert before send ch#1: locked(&c.Mutex) && m_err_nonnil(arg1)
+//@   assert before mapupdate#1: locked(&c.Mutex)
 
 //@ func (*clientConn).getChannel
 //@   property C20, C03, C04
@@ -1285,6 +1310,20 @@ package sftp
 //@   update before call (*clientConn).putChannel#1: ghost.idFresh = false
 //@   modifies bytes, mapof c.inflight, ghost.idFresh
 
+//@ ghost var bSent int
+//@ ghost var bRepl int
+
 //@ func (*clientConn).broadcastErr
 //@   property C20, C04
 //@   requires c != nil && c.inflight != nil
+//@   loop 1 ghost bSent, bRepl
+//@   loop 1 invariant ghost.bSent == ghost.bRepl && c.inflight != nil && locked(&c.Mutex)
+//@   update after call (*sync.Mutex).Lock#1: ghost.bSent = 0
+//@   update after call (*sync.Mutex).Lock#1: ghost.bRepl = 0
+//@   update before send ch#1: ghost.bSent = ghost.bSent + 1
+//@   assert before send ch#1: locked(&c.Mutex) && ghost.bSent == ghost.bRepl && m_err_nonnil(arg1)
+//@   assert before mapupdate#1: arg1 == sid && arg0 == c.inflight && ghost.bSent == ghost.bRepl + 1
+//@   update after mapupdate#1: ghost.bRepl = ghost.bRepl + 1
+//@   assert before call close#1: locked(&c.Mutex) && ghost.bSent == ghost.bRepl
+// (every in-flight registration receives exactly one connection-lost result and is replaced by a private channel
+//  before the next one is handled, all under the lock that putChannel / getChannel take; closed is closed under it)
